@@ -85,7 +85,10 @@ def form_gen(rng, tid, boundary):
                     elif ty == 'files' and not dflt: parts.append((name, '', 'application/octet-stream', b''))
                 want[name] = 'none' if ty == 'optFile' else {'seq': []}
             else:
-                for fn, mt, c in files: parts.append((name, fn, mt, c))
+                group = [(name, fn, mt, c) for fn, mt, c in files]
+                if rng.random() < 0.15:          # a second input of the same name left unselected, anywhere among the files: no file (two <input type=file name=..>, one empty)
+                    group.insert(rng.randrange(len(group) + 1), (name, '', 'application/octet-stream', b''))
+                parts += group
                 fj = [{'filename': hx(fn), 'mimetype': hx(mt), 'content': c.hex()} for fn, mt, c in files]
                 want[name] = {'file': fj[0]} if ty == 'file' else {'some': {'file': fj[0]}} if ty == 'optFile' else {'seq': fj}
     expected = [[hx(n), want[n]] for n, _, _ in fields]
